@@ -1100,6 +1100,15 @@ func (ex *Exec) step(st *State) {
 			if fv.fn == nil {
 				panic(engineErr("deferred builtin"))
 			}
+			key := fnKey(fv.fn)
+			if f, ok := intrinsics[key]; ok {
+				f(ex, st, fr, nil, d.args)
+				return // RunDefers is executed again for the next deferred call
+			}
+			if m, ok := redirects[key]; ok {
+				ex.pushFrame(st, ex.verifrtFunc(m), d.args, nil, nil)
+				return
+			}
 			ex.pushFrame(st, fv.fn, d.args, fv.bindings, nil)
 			return
 		}
